@@ -50,6 +50,7 @@ func c06Alphabet() (syms []c06Sym) {
 		c06Sym{s: srule{false, c06Pat, []string{"dnsrewrite=1.2.3.4"}}},
 		c06Sym{s: srule{true, c06Pat, []string{"dnsrewrite=1.2.3.4"}}},
 		c06Sym{s: srule{false, c06Pat, []string{"dnsrewrite=1.2.3.4", "important"}}},
+		c06Sym{s: srule{false, c06Pat, []string{"domain=~other.org"}}}, // restricted only: still generic
 		c06Sym{s: srule{false, c06Pat, []string{"badfilter"}}},
 		c06Sym{s: srule{false, c06Pat, []string{"important", "badfilter"}}},
 		c06Sym{s: srule{true, c06Pat, []string{"badfilter"}}},
@@ -152,7 +153,7 @@ func c06Reference(R, S []srule, dns bool) int {
 			if urlblock {
 				continue
 			}
-			if genericblock && !r.has("domain") {
+			if genericblock && r.key()[1] == 0 { // no permitted $domain value: generic (negated values do not make a rule specific)
 				continue
 			}
 		}
